@@ -293,6 +293,127 @@ fn audit_sources(rep: &mut Report) {
     }
 }
 
+
+// ------------------------------------------------------------------ bundled RX160 meshes
+
+/// The bundled Staubli RX160 STL meshes with the cell of the crate's own example. Oracle: parry's exact
+/// `distance` / `intersection_test` called directly on every named pair (no pre-filter, no pair logic).
+#[allow(deprecated)]
+fn rx160_phase(rep: &mut Report, thorough: bool) {
+    use parry3d::shape::TriMesh;
+    use rs_opw_kinematics::collisions::{BaseBody, CollisionBody, RobotBody};
+    use rs_opw_kinematics::constraints::Constraints;
+    use rs_opw_kinematics::kinematics_impl::OPWKinematics;
+    use rs_opw_kinematics::kinematics_with_shape::KinematicsWithShape;
+    use rs_opw_kinematics::read_trimesh::load_trimesh_from_stl;
+    use rs_opw_kinematics::tool::{Base, Tool};
+    use std::sync::Arc;
+    let dir = "/repo/src/tests/data/staubli/rx160";
+    if !std::path::Path::new(&format!("{dir}/link_1.stl")).exists() {
+        rep.assumptions.push("bundled RX160 meshes not found: STL phase skipped".into());
+        return;
+    }
+    let load = |name: &str| -> TriMesh { load_trimesh_from_stl(name) };
+    let links: Vec<TriMesh> = (1..=6).map(|i| load(&format!("{dir}/link_{i}.stl"))).collect();
+    let base_mesh = load(&format!("{dir}/base_link.stl"));
+    let tool_mesh = load("/repo/src/tests/data/flag.stl");
+    let object = load("/repo/src/tests/data/object.stl");
+    let params = crate::common::robots::make(0.15, 0.0, 0.0, [0.55, 0.825, 0.625, 0.11], [1; 6], [0.0; 6], 6);
+    let base_iso = Iso::trans(0.4, 0.7, 0.0);
+    let tool_iso = Iso::trans(0.0, 0.0, 0.5);
+    let env_poses = [Iso::trans(1.0, 0.0, 0.0), Iso::trans(-0.35, 0.75, 0.0), Iso::trans(0.4, 1.45, 0.3)];
+    let tables = vec![
+        SafetyDesc::touch(1),
+        SafetyDesc { to_env: 0.05, to_robot: 0.05, mode: 1, special: vec![((1, J_BASE), NEVER_COLLIDES), ((2, J_BASE), NEVER_COLLIDES), ((1, 3), NEVER_COLLIDES), ((2, 3), NEVER_COLLIDES), ((3, J_TOOL), 0.02), ((3, 5), 0.02)] },
+        SafetyDesc { to_env: 0.12, to_robot: 0.03, mode: 0, special: vec![((J_BASE, 1), NEVER_COLLIDES), ((0, 2), NEVER_COLLIDES)] },
+    ];
+    let robots: Vec<KinematicsWithShape> = tables
+        .iter()
+        .map(|t| {
+            let core = OPWKinematics::new_with_constraints(params, Constraints::new([-3.9; 6], [3.9; 6], 0.0));
+            let kin = Tool { robot: Arc::new(Base { robot: Arc::new(core), base: to_na(&base_iso) }), tool: to_na(&tool_iso) };
+            KinematicsWithShape {
+                kinematics: Arc::new(kin),
+                body: RobotBody {
+                    joint_meshes: [links[0].clone(), links[1].clone(), links[2].clone(), links[3].clone(), links[4].clone(), links[5].clone()],
+                    tool: Some(tool_mesh.clone()),
+                    base: Some(BaseBody { mesh: base_mesh.clone(), base_pose: to_na(&base_iso).cast::<f32>() }),
+                    collision_environment: env_poses.iter().map(|p| CollisionBody { mesh: object.clone(), pose: to_na(p).cast::<f32>() }).collect(),
+                    safety: t.build(),
+                },
+            }
+        })
+        .collect();
+    let mut qs: Vec<Joints> = Vec::new();
+    for a in [0.0, 0.9, -2.2] {
+        for b in [-1.0, 0.0, 1.0, 2.0] {
+            for c in [-2.4, -1.2, 0.0, 1.2, 2.4] {
+                for d in [0.0, 1.5] {
+                    for e in [-1.8, 0.0, 1.8] {
+                        qs.push([a, b, c, d, e, 0.4]);
+                    }
+                }
+            }
+        }
+    }
+    let stride = if thorough { 1 } else { 9 };
+    let qs: Vec<Joints> = qs.into_iter().step_by(stride).collect();
+    let sub = par::run(qs.len() as u64, |idx, r| {
+        let q = qs[idx as usize];
+        let l = crate::common::fkref::links(&params, &q).map(|x| base_iso.mul(&x));
+        let mut bodies: Vec<(usize, &TriMesh, nalgebra::Isometry3<f32>)> = Vec::new();
+        for i in 0..6 {
+            bodies.push((i, &links[i], to_na(&l[i]).cast::<f32>()));
+        }
+        bodies.push((J_TOOL, &tool_mesh, to_na(&l[5]).cast::<f32>()));
+        bodies.push((J_BASE, &base_mesh, to_na(&base_iso).cast::<f32>()));
+        for (k, p) in env_poses.iter().enumerate() {
+            bodies.push((ENV_START_IDX + k, &object, to_na(p).cast::<f32>()));
+        }
+        let mut dist = std::collections::BTreeMap::new();
+        for x in 0..bodies.len() {
+            for y in (x + 1)..bodies.len() {
+                let (a, b) = (bodies[x].0, bodies[y].0);
+                if relevant_pair(a, b) {
+                    let touching = parry3d::query::intersection_test(&bodies[x].2, bodies[x].1, &bodies[y].2, bodies[y].1).unwrap();
+                    let d = if touching { 0.0 } else { parry3d::query::distance(&bodies[x].2, bodies[x].1, &bodies[y].2, bodies[y].1).unwrap() as f64 };
+                    dist.insert((a.min(b), a.max(b)), d);
+                }
+            }
+        }
+        r.states += 1;
+        for (ti, t) in tables.iter().enumerate() {
+            let (hit, boundary) = pairs_ref(&dist, t);
+            let robot = &robots[ti];
+            let observed = robot.collision_details(&q);
+            let obs = set_of(&observed);
+            let col = robot.collides(&q);
+            r.transitions += 2;
+            r.sig(format!("rx160:table{ti}:hits{}", hit.len().min(5)));
+            let case = || json!({"kind": "rx160", "table": ti, "q": nums(&q)});
+            if t.mode == 1 {
+                for p in &hit {
+                    if !obs.contains(p) {
+                        r.fail(format!("C10/rx160/missed-pair/{}", pair_class(*p)), idx, case(), format!("pair {p:?} is {} m apart (limit {}), not reported; reported {observed:?}", dist[p], t.r(p.0, p.1)));
+                    }
+                }
+            } else if !hit.is_empty() && observed.is_empty() {
+                r.fail("C10/rx160/missed-pair/first".to_string(), idx, case(), format!("oracle pairs {hit:?}, nothing reported"));
+            }
+            for p in &obs {
+                if !hit.contains(p) && !boundary.contains(p) {
+                    r.fail(format!("C10/rx160/spurious-pair/{}", pair_class(*p)), idx, case(), format!("pair {p:?} reported, exact distance {:?}, limit {}", dist.get(p), t.r(p.0, p.1)));
+                }
+            }
+            if (!hit.is_empty() || boundary.is_empty()) && col != !hit.is_empty() {
+                r.fail("C10/rx160/verdict".to_string(), idx, case(), format!("collides = {col}, oracle pairs {hit:?}"));
+            }
+        }
+    });
+    rep.set("rx160_postures", json!(qs.len()));
+    rep.merge(sub);
+}
+
 pub fn run(ctx: &Ctx) -> Report {
     let thorough = !ctx.quick();
     let qs = postures(thorough);
@@ -366,6 +487,7 @@ pub fn run(ctx: &Ctx) -> Report {
             r.sample(|| cfg.json());
         }
     });
+    rx160_phase(&mut rep, thorough);
     validate_oracle(&mut rep);
     audit_sources(&mut rep);
     rep.traces_validated = rep.transitions;
@@ -374,7 +496,7 @@ pub fn run(ctx: &Ctx) -> Report {
                 several objects) x postures (folded elbow, leaning into base, ...) x safety tables (touch, 2 cm, 5 cm, mixed, per-pair overrides smaller/larger, \
                 NEVER_COLLIDES on each candidate pair in both key orders) x modes x entry points {collision_details, collides, RobotBody::collides, near with a \
                 table different from the body's}; oracle PAIRS_ref: all named pairs decided by an own f64 triangle-triangle distance without any pre-filter; \
-                pairs within 1 mm of their limit are not judged; first-collision mode re-run in rayon pools of 1,2,4,8,16 threads; \
+                pairs within 1 mm of their limit are not judged; first-collision mode re-run in rayon pools of 1,2,4,8,16 threads; plus the bundled RX160 STL meshes in the cell of the crate's example against parry's exact queries; \
                 signature = (entry, mode, number of oracle pairs)".into();
     rep.set("axes", json!({"presence_variants": presence.len(), "layouts": N_LAYOUTS, "subdiv_variants": 2, "postures": qs.len(), "tables": tables.len()}));
     rep.assumptions.push("tasks evaluated by rayon are pure (textual audit of collisions.rs on every run); schedule only selects which hit first-collision mode reports".into());
@@ -383,6 +505,12 @@ pub fn run(ctx: &Ctx) -> Report {
 }
 
 pub fn replay(case: &Value) -> Vec<String> {
+    if case["kind"] == "rx160" {
+        let mut r = Report::new();
+        rx160_phase(&mut r, true);
+        let q = case["q"].clone();
+        return r.fails.iter().filter(|f| f.case["q"] == q).map(|f| format!("{}: {}", f.key, f.detail)).collect();
+    }
     let cfg = Config::from_json(&case["config"]);
     let e = &case["eval"];
     let bt = SafetyDesc::from_json(&e["body_table"]);
